@@ -499,6 +499,16 @@ def run(ck, binary, run_impl, replay):
         # (b3) payload sizes around the varint length boundaries, for every length-delimited construct
         for kind, n, tr in boundary_trees([127, 128, 129, 16383, 16384, 16385]):
             cases.append(mk_parse(enc_fields(tr), {"msg": [1], "packed": {4: 0}, "max": 0}, tree=tr, origin="boundary"))
+        # (b4) packed payloads of every length 0..17 for each element type (a length that is not a multiple
+        #      of the element width is malformed), at top level, inside a message and inside a group
+        for et in (0, 5, 1):
+            po = {"msg": [1], "packed": {4: et}, "max": 0}
+            for ln in range(0, 18):
+                payload = bytes(rng.randrange(128) for _ in range(ln))
+                f = tag(4, 2) + varint(ln) + payload
+                cases.append(mk_parse(f, po, origin="packedlen"))
+                cases.append(mk_parse(tag(1, 2) + varint(len(f)) + f + tag(3, 0) + b"\x07", po, origin="packedlen"))
+                cases.append(mk_parse(tag(9, 3) + f + tag(9, 4), po, origin="packedlen"))
         # (c) packed field without configured element type, unsupported element type
         cases.append(mk_parse(bytes.fromhex("1a03010203"), None, packno=[3], origin="cfg"))
         cases.append(mk_parse(bytes.fromhex("1a03010203"), {"msg": [], "packed": {3: 2}, "max": 0}, origin="cfg"))
